@@ -15,6 +15,7 @@ import (
 	"flag"
 	"fmt"
 	"os"
+	"runtime/debug"
 	"sort"
 	"strconv"
 	"strings"
@@ -149,6 +150,17 @@ var hung = 0
 
 // runCase executes one case under a watchdog and writes its trace line.
 func runCase(w *tr.W, impl string, ops []string) {
+	if impl == "PAT" {
+		// A corrupted threaded tree can recurse without bound; the resulting stack overflow is fatal
+		// (not recoverable).  The case is therefore announced and flushed before it runs, so that the
+		// last line of the trace is the culprit; the driver skips PENDING lines.
+		w.Begin("PENDING %s", impl)
+		for _, op := range ops {
+			w.Op(op, "?")
+		}
+		w.End()
+		w.Flush()
+	}
 	var mu sync.Mutex
 	res := make([]string, 0, len(ops))
 	done := make(chan struct{})
@@ -615,6 +627,7 @@ func main() {
 	tier := flag.String("tier", "quick", "quick|thorough")
 	replay := flag.String("replay", "", "case file to re-execute")
 	flag.Parse()
+	debug.SetMaxStack(64 << 20)
 	w := tr.NewW()
 	defer w.Flush()
 	if *replay != "" {
@@ -624,7 +637,11 @@ func main() {
 			os.Exit(3)
 		}
 		for _, c := range cs {
-			runCase(w, strings.Fields(c.Head)[0], c.Ops)
+			h := strings.Fields(c.Head)
+			if h[0] == "PENDING" && len(h) > 1 {
+				h = h[1:]
+			}
+			runCase(w, h[0], c.Ops)
 		}
 		return
 	}
